@@ -265,6 +265,11 @@ fn spawn_cfg(case: &Case, input: &[u8], cfg: &Cfg, paths: &[String], ctx: &mut C
         }
     }
     cmd.env_remove("RUST_BACKTRACE");
+    {
+        // the environment is part of the world too: one variable whose value is not UTF-8
+        use std::os::unix::ffi::OsStrExt;
+        cmd.env("JAWK_SIM_NOT_UTF8", std::ffi::OsStr::from_bytes(b"\xff\xfe"));
+    }
     let mut drain: Option<std::process::ChildStdout> = None;
     match preset {
         Preset::Files => {
@@ -518,12 +523,18 @@ impl Property for C20 {
             pipe.opts.retain(|o| !o[0].starts_with("--row-seperator"));
             pipe.opts.push(vec![format!("--row-seperator={}", rng.pick(&[",", ";", " | ", ""]))]);
         }
+        if family == "valid" && pipe.style == Style::Json && rng.chance(1, 8) {
+            // an expression that looks at the environment (the child's holds a non-UTF-8 value)
+            pipe.opts.push(vec!["--select".into(), "(env \"HOME\")=home".into()]);
+        }
         case.opts = pipe.opts;
         let pol = *rng.pick(&[Policy::Ignore, Policy::Panic, Policy::Stderr, Policy::Stderr, Policy::Stdout]);
         case.opts.push(policy_opt(pol));
         let len = case.stream().len();
         match family {
             "invalid" => {
+                // sometimes the message has nowhere to go either
+                case.set("stderr", *rng.pick(&[0i64, 0, 1, 2]));
                 let bad: &[&str] = if rng.chance(1, 2) {
                     CLAP_INVALID[rng.below(CLAP_INVALID.len())]
                 } else {
@@ -706,6 +717,32 @@ impl Property for C20 {
             return viol("C20.hang", format!("fault-free child did not finish within 20 s: {}", f.describe()));
         }
         let noisy_routed = case.pieces.iter().any(|p| p.kind == Kind::Garbage) && matches!(pol, Policy::Stderr | Policy::Stdout);
+        if case.family == "invalid" && case.param("stderr") > 0 && !g.outcome.is_ok() {
+            // an invalid configuration and a standard error that cannot take the message:
+            // whatever becomes of the message, the status must not say success
+            let mut c2 = Cfg::plain();
+            c2.stderr = if case.param("stderr") == 1 { StderrKind::DevFull } else { StderrKind::ClosedPipe };
+            let r = match spawn_cfg(case, &input, &c2, &[], ctx) {
+                Ok(c) => c,
+                Err(e) => {
+                    ctx.harness_error = Some(e);
+                    return None;
+                }
+            };
+            ctx.stats.fault("config.invalid-with-unwritable-stderr", 1);
+            if r.timed_out {
+                return viol("C20.hang", format!("invalid configuration with {:?} stderr: {}", c2.stderr, r.describe()));
+            }
+            if r.status == Some(0) {
+                return viol(
+                    "C20.exit-fail",
+                    format!("an invalid configuration exits with status 0 when standard error is {:?}", c2.stderr),
+                );
+            }
+            if !r.out.is_empty() {
+                return viol("C20.exit-fail", format!("an invalid configuration wrote to stdout: {}", r.describe()));
+            }
+        }
         match &g.outcome {
             Outcome::Clap(_) => {
                 ctx.stats.fault("config.rejected-by-clap", 1);
